@@ -338,7 +338,8 @@ Definition step_create (w : world) (i : nat) (x : inst) (k : nat) (f : fault) : 
       (set_i w i (upd_pc x PNone), o ++ [ObsCreate i r why]) in
   match k with
   | O => (* Lock.Fetch: only a successful fetch stops creation *)
-    let found := succeeded f && match w_lock w with Some _ => true | None => false end in
+    (* the lock store is keyed by log ID (the key): another log's entry is not found *)
+    let found := succeeded f && match w_lock w with Some lc => cp_key lc =? c_key c | None => false end in
     let o := ObsOp i KLockFetch [] None None f found in
     if found then stop w (Some ENonFatal) "exists"%string [o]
     else (set_i w i (upd_pc x (PCreate 1)), [o])
